@@ -7,6 +7,7 @@ BOUNDS = {
               '%-calls': '12 concrete skeletons over put/get/version with a symbolic store value', 'store': 'one step from every strictly ascending store of 0..3 entries, probe symbolic'},
     'thorough': {'text': 'length 0..3 over the 13-letter alphabet completely and an eighth of length 4 (a sixteenth for the over-read family), length 4..5 over the three sub-alphabets completely', 'environment': 'same', 'CONFIG_BUFF': 'same'},
 }
+SAMPLED = {'quick': 'length-3 texts over the 13-letter alphabet (every 4th) and length-5 sub-alphabet texts (a 16th) are samples; lengths 0..2 and sub-alphabet length 4 are complete', 'thorough': 'length-4 texts over the 13-letter alphabet are a sample (an eighth / a sixteenth); everything else is complete'}
 RULE = 'C10 shapes: (text length, text index) - the text is concrete per query; environment, store contents and all uninitialised memory are symbolic.'
 ASSUMPTIONS = ['the reference expander in harness/c10_expand.c transcribes the rules of the property statement; a trailing backslash stays as it is; "$" with an empty name expands to nothing',
                'backquote and %exec/%random/%dirscan results come from the OS and are outside the oracle',
